@@ -23,7 +23,7 @@ CONSTANTS
   DOps <- OpsNoPeek
   DMis <- Mis0
   SStreams <- StreamsP
-  SQs <- Q68
+  SQs <- Q1to8
   CapMax = 8
   HistD = 8
   Kinds <- None
